@@ -29,6 +29,7 @@ DECIDED = [
     "R-C05-ROUND / R-C05-POLL / R-C05-ROUTE (round 6 + sweep): the RabbitMQ TTL is not capped; the in-memory refresh period is a constant; RabbitMQ: TTL exactly for a due time ahead, delayed queue exactly with a TTL, dead-letter route delayed -> work queue, a NORMAL consumer subscribes the work queue",
     "R-C05-AWAITED: in the files this property is anchored in, no bare statement calls a coroutine function (the operation would never run)",
     "R-C05-ROUTE (Redis sweep rules): the Redis key constructors (delayed messages live in :d lists only)",
+    "R-C05-ROUTE (sweep stage two): in-memory reject decision table (DEAD -> dead, DELAYED with due time -> delayed bucket, else waiting; due time looked up for DELAYED holders only)",
 ]
 NOT_DECIDED = ["the delivery latency bound after T (timing)", "RabbitMQ per-message TTL head-of-line blocking (server behaviour)"]
 ASSUMPTIONS = ["Redis ZRANGE BYSCORE -inf..now returns only members with score <= now", "RabbitMQ dead-letters expired messages of a queue to its DLX routing key"]
@@ -42,6 +43,9 @@ def run(ctx: Ctx) -> None:
     from .shared import every_operation_awaited
 
     every_operation_awaited(ctx, "R-C05-AWAITED")  # in the files this property is anchored in, no asynchronous operation is created and dropped
+    from .brokers import inmem_reject_table
+
+    inmem_reject_table(ctx, "R-C05-ROUTE")  # a not-yet-due message rejected by a DELAYED reader goes back to the delayed map, never to the waiting queue
     from .brokers import redis_name_constructors
 
     redis_name_constructors(ctx, "R-C05-ROUTE")  # delayed messages live in :d lists only (a plain qnc() is the waiting list)
